@@ -233,9 +233,12 @@ static QueueRun execute_queue(const QueueCfg &c, int consumer_style, uint64_t se
           AddRec &a = h.adds[static_cast<size_t>(p)][static_cast<size_t>(s)];
           a.call    = stamp();
           vfs::point(6);
-          bool ok = buf.Add(e);
-          a.ok    = ok;
-          a.kept  = !ok && e.get() == raw;
+          // both overloads: Add(unique_ptr&) leaves a rejected element with the caller, Add(unique_ptr&&) - the one
+          // the batch processors use - destroys it; either way nothing may leak (instance accounting below)
+          bool rvalue = ((seed >> (8 + (s & 15))) ^ static_cast<uint64_t>(p)) & 1;
+          bool ok     = rvalue ? buf.Add(std::move(e)) : buf.Add(e);
+          a.ok        = ok;
+          a.kept      = !ok && (rvalue ? e == nullptr : e.get() == raw);
           if (ok && e)
             R.violation("successful-add-takes-element", mode, "Add succeeded but the caller still owns an element");
           a.ret = stamp() + 1;
@@ -653,10 +656,11 @@ static void run_queue_free(uint64_t seed)
           Elem *raw = e.get();
           AddRec &a = h.adds[static_cast<size_t>(p)][static_cast<size_t>(s)];
           a.call    = vf::EventLog::now();
-          bool ok   = buf.Add(e);
-          a.ret     = vf::EventLog::now();
-          a.ok      = ok;
-          a.kept    = !ok && e.get() == raw;
+          bool rvalue = ((seed >> (8 + (s & 15))) ^ static_cast<uint64_t>(p)) & 1;
+          bool ok     = rvalue ? buf.Add(std::move(e)) : buf.Add(e);
+          a.ret       = vf::EventLog::now();
+          a.ok        = ok;
+          a.kept      = !ok && (rvalue ? e == nullptr : e.get() == raw);
         }
         done.fetch_add(1, std::memory_order_relaxed);
       });
